@@ -295,6 +295,62 @@ def work(job):
     return res
 
 
+def work_seq(job):
+    """job = (layout, seed, n_sequences): sequences of blocks on one shared GainCalc instance, each block compared
+    (exact equality) with the same block on a fresh deep copy of a never-used instance; the C01 predicate runs on the
+    shared-instance result."""
+    import copy
+
+    layout, seed, nseq = job
+    rng = random.Random("c01-seq/%s/%r" % (layout, seed))
+    res = {"layout": layout, "real": None, "lines": [], "expect": [], "cases": [], "hits": [], "counts": {}, "drift": []}
+
+    def count(k, n=1):
+        res["counts"][k] = res["counts"].get(k, 0) + n
+
+    try:
+        template = G.pristine_gain_calc(layout)
+    except Exception as e:
+        res["hits"].append(("GainCalc(layout) raised for an admissible layout", {"layout": layout},
+                            {"exception": "%s: %s" % (type(e).__name__, str(e)[:300])}, ["c01-exception", "c01-construct"]))
+        return res
+    for _ in range(nseq):
+        seq = G.gen_sequence(rng, layout)
+        shared = copy.deepcopy(template)
+        count("sequences:%s" % layout)
+        count("sequence length:%d" % len(seq))
+        count("sequence paths:" + "".join("C" if c["cartesian"] else "P" for c in seq))
+        for i, case in enumerate(seq):
+            a = G.run_real(case, shared)
+            b = G.run_real(case, copy.deepcopy(template))
+            if a[0] != "ok" or b[0] != "ok":
+                if a[0] != b[0]:
+                    res["hits"].append(("render depends on earlier blocks", {"sequence": seq[: i + 1], "index": i},
+                                        {"shared": a[:3] if a[0] != "ok" else "ok", "fresh": b[:3] if b[0] != "ok" else "ok"},
+                                        ["c01-state-dependent"]))
+                    break
+                count("sequence block rejected by design")
+                continue
+            _st, is_lfe, direct, diffuse = a
+            same = np.array_equal(direct, b[2], equal_nan=True) and np.array_equal(diffuse, b[3], equal_nan=True)
+            count("sequence block position %d" % i)
+            count("sequence block zones:%s" % ("recurring/non-empty" if case["zones"] else "empty"))
+            res["cases"].append((repr(("seq", layout, i, sorted((k, repr(v)) for k, v in case.items()))), True, None))
+            if not same:
+                res["hits"].append(("render depends on earlier blocks", {"sequence": seq[: i + 1], "index": i},
+                                    {"shared_instance": {"direct": f17(direct), "diffuse": f17(diffuse)},
+                                     "fresh_instance": {"direct": f17(b[2]), "diffuse": f17(b[3])}},
+                                    ["c01-state-dependent"]))
+                break
+            p = G.predicate(case, is_lfe, direct, diffuse)
+            if p is not None:
+                what, detail, tags = p
+                res["hits"].append((what + " (block %d of a sequence on one instance)" % i,
+                                    {"sequence": seq[: i + 1], "index": i}, detail, tags + ["c01-in-sequence"]))
+                break
+    return res
+
+
 # --------------------------------------------------------------------------------------
 # sub-model correspondences (grain ii)
 
@@ -435,7 +491,9 @@ class C01(Spec):
         "ranges), plus a lattice stream: azimuth/elevation on the 5-degree grid of the spreading panner's virtual sources "
         "(quick: the rows |el| in {85,80,45,40,30,0} on three layouts rotated by seed; thorough: the whole grid on all "
         "ten) and on 1-degree steps, Cartesian positions on multiples of 0.25 / 0.1, each with a fixed set of extents "
-        "(0/5/20/90/180/270/360, wide-flat and tall shapes, depth 0/0.5); a case is one (block, layout); non-trivial = non-zero output power; distinct by the case dict"
+        "(0/5/20/90/180/270/360, wide-flat and tall shapes, depth 0/0.5), plus sequences of 2-6 blocks on ONE shared "
+        "GainCalc instance (alternating polar/Cartesian, extent/lock/divergence on and off, one zone list recurring), each "
+        "block compared by exact equality with the same block on a fresh instance; a case is one (block, layout); non-trivial = non-zero output power; distinct by the case dict"
     )
 
     # ---- tables
@@ -865,6 +923,20 @@ class C01(Spec):
             jobs = self._jobs(ctx, 3600, True, False, chunks=4, real_layouts=12)
             jobs += self._lattice_jobs(ctx, G.LAYOUTS, "full", False, 8)
         self._run_jobs(ctx, jobs, driver, "search", nproc)
+        # sequences on one shared instance
+        if ctx.quick and not deep:
+            sjobs = [(name, (ctx.seed, ctx.tier, c), 6) for name in self._rotating_layouts(ctx, 4) for c in range(2)]
+        elif ctx.quick:
+            sjobs = [(name, (ctx.seed, ctx.tier, c), 15) for name in G.LAYOUTS for c in range(2)]
+        else:
+            sjobs = [(name, (ctx.seed, ctx.tier, c), 40) for name in G.LAYOUTS for c in range(8)]
+        if nproc <= 1:
+            for j in sjobs:
+                self._absorb(ctx, work_seq(j), None, "search")
+        else:
+            with multiprocessing.get_context("fork").Pool(min(nproc, len(sjobs))) as pool:
+                for res in pool.imap_unordered(work_seq, sjobs):
+                    self._absorb(ctx, res, None, "search")
 
 
 SPEC = C01()
